@@ -109,7 +109,7 @@ class Scenario(object):
         """degree-indexed quantity truncated to 0..kmax (the library's dense layout)"""
         a = self.val(key)
         m = self.kmax + 1
-        return a[:m] if a.ndim == 1 else a[:m, :m]
+        return np.ascontiguousarray(a[:m] if a.ndim == 1 else a[:m, :m])   # fresh array for every call
 
     def brief(self):
         return {"n": self.n, "edges": self.edges, "ic": self.ic, "initial_infecteds": self.inf,
@@ -369,23 +369,24 @@ def compare_row0(e, sc, full, ret):
     own_c = [s for s in own if len(s) == arity]
     sib_c = [s for s in sib if len(s) == arity]
     notes = []
-    tried = []
-    for origin, cands in (("own", own_c), ("sibling", sib_c)):
-        if origin == "sibling" and own_c:
-            break       # the own docstring speaks about this arity: it decides
-        for st in cands:
-            bad, soft = evaluate(st)
-            tried.append((origin, st, bad, soft))
-            if not bad:
-                for nm, pos, r in soft:
-                    notes.append("%s (rho): auxiliary series %s at index 0 %s from the expected count %s"
-                                 % (name, nm, "has a different shape" if r == "shape" else
-                                    "= %s deviates" % _fmt(v0[pos]), _fmt_exp(sc, nm, v0[pos])))
-                if origin == "sibling":
-                    notes.append("%s(return_full_data=%s) returns %d series; its own docstring documents %s; "
-                                 "the order documented by its sibling (%s) matches the code"
-                                 % (name, full, arity, " / ".join(str(len(s)) for s in own) or "none", ", ".join(st)))
-                return [], notes, st
+    # the own docstring decides whenever it speaks about this arity; the sibling's otherwise
+    origin, cands = ("own", own_c) if own_c else ("sibling", sib_c)
+    tried = [(origin, st) + evaluate(st) for st in cands]
+    good = [t for t in tried if not t[2]]
+    if good:
+        good.sort(key=lambda t: len(t[3]))          # prefer the statement that explains every series
+        origin, st, bad, soft = good[0]
+        for nm, pos, r in soft:
+            notes.append(("%s|rho-aux|%s" % (name, nm),
+                          "%s (rho): auxiliary series %s at index 0 %s from the expected count %s (scenario %s)"
+                          % (name, nm, "has a different shape" if r == "shape" else "= %s deviates" % _fmt(v0[pos]),
+                             _fmt_exp(sc, nm, v0[pos]), sc.brief())))
+        if origin == "sibling":
+            notes.append(("%s|sibling-order|%s" % (name, full),
+                          "%s(return_full_data=%s) returns %d series; its own docstring documents %s; "
+                          "the order documented by its sibling (%s) matches the code"
+                          % (name, full, arity, " / ".join(str(len(s)) for s in own) or "none", ", ".join(st))))
+        return [], notes, st
     if not tried:
         docs = " / ".join(", ".join(s) for s in own) or "(nothing)"
         return [("arity:documented-%s-returned-%d" % ("-or-".join(str(len(s)) for s in own) or "0", arity),
@@ -394,13 +395,15 @@ def compare_row0(e, sc, full, ret):
             _fallback_stmt(name, arity)
     origin, st, bad, soft = tried[0]
     names = [nm for nm, _, _ in bad]
+    if any(nm in MAIN for nm in names):
+        names = [nm for nm in names if nm in MAIN]       # S, I, R wrong: the auxiliary series follow
     fclass = None
     if len(bad) >= 2:
         # is the mismatch a permutation of the documented positions?
         poss = [pos for _, pos, _ in bad]
         for perm in itertools.permutations(poss):
             if all(series_matches(sc, nm, v0[q], tol) is None for (nm, _, _), q in zip(bad, perm)):
-                fclass = "order:" + "<->".join(names)
+                fclass = "order:" + "<->".join(nm for nm, _, _ in bad)
                 break
     if fclass is None:
         if all(r == "shape" for _, _, r in bad):
